@@ -6,10 +6,11 @@ Each is an exact-substring replacement in a scratch copy of /repo/fuzzylite (nev
 M = []
 
 
-def mut(id, pids, file, old, new, note="", extra=None):
-    """extra: optional list of further (old, new) replacements in the same file."""
+def mut(id, pids, file, old, new, note="", extra=None, benign=False):
+    """extra: optional list of further (old, new) replacements in the same file.
+    benign=True marks a behaviour-preserving control: the check must stay silent on it."""
     M.append({"id": id, "pids": pids if isinstance(pids, list) else [pids], "file": file, "old": old, "new": new, "note": note,
-              "extra": extra or []})
+              "extra": extra or [], "benign": benign})
 
 
 # ---------------------------------------------------------------- C20
@@ -220,3 +221,56 @@ mut("c13_memo_inputs", "C13", "engine.py", '''        for variable in self.outpu
             variable.fuzzy.clear()
 
         for block in self.rule_blocks:''', "process() is skipped when the inputs equal those of the previous step (ignores edits, clear and restart in between)")
+
+# ---------------------------------------------------------------- C16
+mut("d2_revert_deque_check", "C16", "rule.py", "            if state & (s_hedge | s_term):\n                raise SyntaxError(f\"expected hedge or term, but found '{token}'\")\n\n        if len(stack) != 1:",
+    "            if stack & (s_hedge | s_term):\n                raise SyntaxError(f\"expected hedge or term, but found '{token}'\")\n\n        if len(stack) != 1:",
+    "defect D2 as found at the pinned commit")
+mut("c16_antecedent_no_unload", "C16", "rule.py", '''        self.unload()
+        if not self.text:
+            raise SyntaxError("expected the antecedent of a rule, but found none")
+
+        postfix = Function.infix_to_postfix(self.text)''', '''        if not self.text:
+            raise SyntaxError("expected the antecedent of a rule, but found none")
+
+        postfix = Function.infix_to_postfix(self.text)''', "Antecedent.load without the leading unload(): a failed load keeps the old tree")
+mut("c16_consequent_appends_directly", "C16", "rule.py", '''                    proposition = Proposition(variable)
+                    conclusions.append(proposition)
+                    state = s_is
+                    continue
+
+            if state & s_is and Rule.IS == token:''', '''                    proposition = Proposition(variable)
+                    conclusions.append(proposition)
+                    self.conclusions = conclusions
+                    state = s_is
+                    continue
+
+            if state & s_is and Rule.IS == token:''', "Consequent.load publishes the conclusions before the text is fully checked")
+mut("c16_consequent_first", "C16", "rule.py", '''        self.deactivate()
+        self.antecedent.load(engine)
+        self.consequent.load(engine)
+''', '''        self.deactivate()
+        self.consequent.load(engine)
+        self.antecedent.load(engine)
+''', "Rule.load loads the consequent first: behaviour-preserving control, must NOT be reported", benign=True)
+mut("c16_parse_ignores_trailing", "C16", "rule.py", '''            elif state == s_end:
+                raise SyntaxError(f"unexpected token '{token}' in rule '{text}'")''', '''            elif state == s_end:
+                break''', "Rule.parse ignores tokens after the weight")
+mut("c16_consequent_no_final_check", "C16", "rule.py", '''            if state & (s_hedge | s_term):
+                raise SyntaxError(f"consequent expected hedge or term after '{token}' ")
+''', '''            if state & (s_hedge | s_term):
+                conclusions.pop()
+''', "final-state check of Consequent.load drops the unfinished conclusion instead of rejecting")
+mut("c16_importer_swallows_rule_errors", "C16", "importer.py", '''        return Rule.create(self.extract_value(fll, "rule"), engine)
+''', '''        try:
+            return Rule.create(self.extract_value(fll, "rule"), engine)
+        except SyntaxError:
+            return Rule.create(self.extract_value(fll, "rule"))
+''', "FllImporter keeps a rule that fails to load as an unloaded rule")
+mut("c16_parse_partial_assignment", "C16", "rule.py", '''        self.antecedent.text = " ".join(antecedent)
+        self.consequent.text = " ".join(consequent)
+        self.weight = weight
+''', '''        self.weight = weight
+        self.antecedent.text = " ".join(antecedent)
+        self.consequent.text = " ".join(consequent)
+''', "behaviour-preserving reorder (control): must NOT be reported", benign=True)
